@@ -198,6 +198,27 @@ def direct_oracle(g, seed, rs=None):
             return dict(what="base layer: a pixel's log-density is not the sum of its OBSERVED channels' Gaussian log-densities",
                         x=np.where(np.isnan(xm), None, xm).tolist(), at=[int(t) for t in i] if i else None,
                         impl=float(z[i]) if i else list(z.shape), expected=float(ref[i]) if i else list(ref.shape))
+        # (1c) a model with the dropout options, in evaluation mode, queried through a HISTORY: forward, mpe, forward again.
+        #      Evaluation mode is the caller's; no query may leave it, so the all-missing input still scores 0 and a complete
+        #      image gets the same log-density every time.
+        from deeprob.spn.models.dgcspn import DgcSpn
+        torch.manual_seed(seed + 11)
+        md = DgcSpn((C_, D, D), out_classes=g["classes"], n_batch=g["batch"], sum_channels=g["sumc"], depthwise=list(g["dw"]),
+                    n_pooling=g["n"], in_dropout=0.3, sum_dropout=0.3)
+        md.eval()
+        xc = torch.tensor(rs.uniform(-2, 2, size=(2, C_, D, D)).astype(np.float32))
+        xh = xc.clone(); xh[rs.rand(2, C_, D, D) < 0.4] = float("nan")
+        with torch.no_grad():
+            a0 = md(xc).double().numpy(); n0 = md(torch.full((1, C_, D, D), float("nan"))).double().numpy()
+        md.mpe(xh.clone())
+        with torch.no_grad():
+            a1 = md(xc).double().numpy(); n1 = md(torch.full((1, C_, D, D), float("nan"))).double().numpy()
+        still_eval = (not md.training) and all(not mod.training for mod in md.modules())
+        if not still_eval or not np.allclose(a0, a1, rtol=1e-6, atol=1e-6, equal_nan=True) or not np.all(np.abs(n1) <= 1e-4) or not np.all(np.abs(n0) <= 1e-4):
+            return dict(what="history eval(); forward; mpe; forward on a model with dropout options: the second forward differs "
+                             "(a query left evaluation mode, so dropout is active and outputs are no longer normalised densities)",
+                        still_in_evaluation_mode=bool(still_eval), all_missing_before=n0.tolist(), all_missing_after=n1.tolist(),
+                        complete_before=a0.tolist(), complete_after=a1.tolist())
         # (2) fully missing input has log-probability zero
         xn = torch.full((2, C_, D, D), float("nan"))
         lp = m(xn).detach().double().numpy()
